@@ -81,7 +81,27 @@ C05(r) ==
                             /\ Abs(row.mean1000 * Cardinality(K) - 1000 * DurSum(K)) <= Cardinality(K),
     kernel_only   |-> \A j \in DOMAIN r.kernels : <<r.kernels[j].rank, r.kernels[j].type>> \in RT ]
 
+\* C05, second entry point: get_gpu_user_annotation_breakdown (the same aggregator over annotation events, per rank)
+AnnoRows(r, rank) == Range((CHOOSE rk \in Ranks(r) : rk.rank = rank).annos)
+ARows(r, rank) == { j \in DOMAIN r.kernels : r.kernels[j].rank = rank }
+ANamed(r, rank) == { j \in ARows(r, rank) : r.kernels[j].name # "others" }
+C05A(r) ==
+  IF r.err # "" THEN [no_exception |-> FALSE] ELSE
+  LET RK == { rk.rank : rk \in Ranks(r) } IN
+  [ no_exception |-> TRUE,
+    in_domain    |-> \E rk \in Ranks(r) : rk.annos # <<>>,
+    anno_sums    |-> \A k \in RK : LET js == ARows(r, k) IN SumSet(js, [j \in js |-> r.kernels[j].sum]) = DurSum(AnnoRows(r, k)),
+    anno_named_bound |-> r.allow \/ \A k \in RK : Cardinality(ANamed(r, k)) <= r.numK,
+    anno_named_once  |-> \A k \in RK : \A a, b \in ANamed(r, k) : r.kernels[a].name = r.kernels[b].name => a = b,
+    anno_named_stats |-> \A k \in RK : \A j \in ANamed(r, k) :
+                           LET K == { e \in AnnoRows(r, k) : e.name = r.kernels[j].name }
+                               row == r.kernels[j]
+                           IN /\ K # {} /\ row.sum = DurSum(K) /\ row.max = SetMax({ e.dur : e \in K }) /\ row.min = SetMin({ e.dur : e \in K })
+                              /\ Abs(row.mean1000 * Cardinality(K) - 1000 * DurSum(K)) <= Cardinality(K),
+    anno_only    |-> \A j \in DOMAIN r.kernels : r.kernels[j].rank \in RK ]
+
 Clauses(r) == CASE r.prop = "C04" -> C04(r)
+                [] r.prop = "C05A" -> C05A(r)
                 [] r.prop = "C05" -> C05(r)
                 [] r.prop = "C07" -> C07(r)
 
